@@ -427,6 +427,24 @@ def gen_regex(rng, wide=False):
     else:
         alpha = [0x78, 0xe9, 0x2d, 0x61, 0x0a, 0x39]
     for _ in range(30):
+        if rng.random() < 0.15:
+            # family: prefix (X{a,b}){c,d} suffix  - counted loop around a variable-length body
+            x = gen_char(rng, alpha, allow_dot=False)
+            a = rng.choice([1, 1, 2])
+            b = a + rng.choice([1, 2])
+            c = rng.choice([0, 1, 2, 3])
+            d = c + rng.choice([0, 1, 2, 3])
+            if d == 0:
+                d = 2
+            inner = ("rep", x, a, b, "nm")
+            outer = ("rep", ("grp", inner), c, d, "nm" if c != d else "n")
+            pre = gen_run(rng, alpha, rng.choice([0, 1, 2, 3]))
+            suf = gen_run(rng, alpha, rng.choice([0, 0, 1, 2]))
+            node = ("cat", pre + [outer] + suf)
+            used = 4
+            if not pre and not suf and c == 0:
+                continue
+            break
         node, used = gen_node(rng, alpha, rng.randint(1, 4), rng.randint(2, 12), wide)
         if node[0] in ("set", "dot") or used < 2:
             continue
